@@ -741,8 +741,57 @@ class Gen:
             return ("ref", r.choice(self.rule_names))
         return self.atom()
 
+    def directed_restore(self):
+        """(scope (* pre (+ FAILS ALT) post)): FAILS switches capture mode / scratch / tags and then fails; whatever it switched must be
+        back in place for ALT and post, under every kind of capture scope."""
+        r = self.rng
+        self.features.add("directed-restore")
+        num = ("number", ("builtin", "d"), None, None)
+        one = ("capture", ("n", 1), None)
+        fails = r.choice([
+            ("lenprefix", num, ("n", 1)),                                   # length pattern fails on a non-digit
+            ("lenprefix", ("seq", [one, num]), ("n", 1)),
+            ("lenprefix", ("seq", [num, ("lit", b"zz")]), ("n", 1)),
+            ("lenprefix", ("constant", 3, None), ("lit", b"zz")),           # body fails
+            ("lenprefix", ("readint", 1, False, False, None), ("n", 30)),
+            ("seq", [("accumulate", ("seq", [one, one]), None), ("lit", b"zz")]),
+            ("accumulate", ("seq", [one, ("lit", b"zz")]), None),
+            ("seq", [("group", ("seq", [one, one]), None), ("lit", b"zz")]),
+            ("group", ("seq", [one, ("lit", b"zz")]), None),
+            ("seq", [("capture", ("n", 2), r.choice(TAGS)), ("lit", b"zz")]),
+            ("drop", ("seq", [one, ("lit", b"zz")])),
+            ("replace", ("seq", [one, ("lit", b"zz")]), ("const", b"R"), None),
+            ("sub", ("seq", [one, one]), ("seq", [one, ("lit", b"zz")])),
+            ("unref", ("seq", [("capture", ("n", 1), r.choice(TAGS)), ("lit", b"zz")]), None),
+        ])
+        for f in ("lenprefix", "accumulate", "group", "sub", "unref"):
+            if fails[0] == f or (fails[0] == "seq" and fails[1][0][0] == f):
+                self.features.add(f)
+        alt = r.choice([("capture", self.atom(consuming=True), None), ("capture", ("n", 2), None), ("seq", [one, one]),
+                        ("seq", [("capture", ("n", 1), TAGS[0]), ("backref", TAGS[0], None)]), ("capture", ("builtin", "w+"), None)])
+        pre = r.choice([None, one, ("constant", b"K", None), ("capture", ("n", 1), TAGS[1])])
+        post = r.choice([None, one, ("position", None), ("capture", ("n", 0), None), ("backref", TAGS[1], None) if pre and pre[0] == "capture" and pre[2] else one])
+        core_ = ("seq", [x for x in (pre, ("choice", [fails, alt]), post) if x is not None])
+        if r.random() < 0.3:
+            core_ = ("between", 1, 3, core_, 0)
+            self.features.add("repeat")
+        scope = r.choice(["accumulate", "accumulate", "accumulate", "group", "plain", "replace-const", "capture"])
+        if scope == "accumulate":
+            self.features.add("accumulate")
+            return {"main": ("accumulate", core_, None)}
+        if scope == "group":
+            self.features.add("group")
+            return {"main": ("group", core_, None)}
+        if scope == "replace-const":
+            return {"main": ("seq", [("replace", core_, ("const", b"R"), None), one])}
+        if scope == "capture":
+            return {"main": ("capture", core_, None)}
+        return {"main": core_}
+
     def grammar(self, depth):
         r = self.rng
+        if r.random() < 0.12:
+            return self.directed_restore()
         if r.random() < 0.75:
             return {"main": self.pat(depth)}
         if r.random() < 0.3:
